@@ -99,6 +99,7 @@ type model struct {
 	pings    []h2kit.Ping
 	goaways  []h2kit.GoAway
 	data     map[uint32]int // data octets per stream
+	foreign  []string       // frames that arrived inside a continued header block
 }
 
 func pingData(v uint64) [8]byte {
@@ -164,6 +165,7 @@ func observed(r *h2kit.Rec) *model {
 		}
 	}
 	m.goaways = append(m.goaways, r.GoAways...)
+	m.foreign = append(m.foreign, r.Foreign...)
 	return m
 }
 
@@ -243,6 +245,14 @@ func samePrio(a, b *h2kit.Prio) bool {
 // stream window, and a header block on another stream is sent later. The relay
 // then holds the first block in the stream's queue while the later one is
 // written: the HPACK-order finding.
+// room is the stream window the receiver starts a stream with.
+func room(w Win, stream uint32) int {
+	if w.Mode == "early" && stream%2 == 1 {
+		return w.Init + 1<<20
+	}
+	return w.Init
+}
+
 func blockedShape(frames []Frame, w Win) bool {
 	cum := map[uint32]int{}
 	held := false
@@ -255,7 +265,7 @@ func blockedShape(frames []Frame, w Win) bool {
 			if held && f.S != heldStream {
 				return true
 			}
-			if !held && cum[f.S] > w.Init {
+			if !held && cum[f.S] > room(w, f.S) {
 				held, heldStream = true, f.S
 			}
 		}
@@ -268,7 +278,7 @@ func canBlock(frames []Frame, w Win) bool {
 	for _, f := range frames {
 		if f.T == "D" {
 			cum[f.S] += f.N
-			if cum[f.S] > w.Init {
+			if cum[f.S] > room(w, f.S) {
 				return true
 			}
 		}
@@ -357,6 +367,9 @@ func classes(c Case) []string {
 	if c.Procs > 0 {
 		set["stream-processors"] = true
 	}
+	if c.CWin.Mode == "early" {
+		set["credit-before-first-frame"] = true
+	}
 	for _, f := range c.Client {
 		if f.T == "T" && f.Table > 4096 {
 			set["encoder-table-above-4096"] = true
@@ -389,7 +402,7 @@ func nontrivial(c Case) bool {
 
 // compare checks one direction. dir is "c2s" or "s2c"; blocked says whether the
 // direction has the headers-behind-blocked-data shape.
-func compare(dir string, want, got *model, wantAcks, gotAcks int, blocked bool) kit.Verdict {
+func compare(dir string, want, got *model, wantAcks, gotAcks int, blocked, early bool) kit.Verdict {
 	var v kit.Verdict
 	var ids []uint32
 	seen := map[uint32]bool{}
@@ -466,12 +479,18 @@ func compare(dir string, want, got *model, wantAcks, gotAcks int, blocked bool) 
 				}
 			}
 		}
-		if len(g) < len(w) {
+		if len(g) < len(w) && early && s%2 == 1 {
+			v.Addf("C08/stream-history/"+dir+"-credit-granted-before-first-frame/frames-missing", "%s stream %d (the receiver granted 1 MiB of stream credit right after opening the stream and nothing later): %d of %d items arrived; first missing: %v", dir, s, len(g), len(w), w[len(g)])
+		} else if len(g) < len(w) {
 			v.Addf("C08/stream-history/"+dir+"/frames-missing", "%s stream %d: %d of %d items arrived; first missing: %v", dir, s, len(g), len(w), w[len(g)])
 		}
 		if len(g) > len(w) {
 			v.Addf("C08/stream-history/"+dir+"/frames-invented", "%s stream %d: %d items sent, %d arrived; first extra: %v", dir, s, len(w), len(g), g[len(w)])
 		}
+	}
+	for _, f := range got.foreign {
+		v.Addf("C08/header-fields/continued-block/foreign-frame-between-fragments", "%s: %s", dir, f)
+		break
 	}
 	// connection frames
 	if d := settingsDiff(want.settings, got.settings); d != "" {
@@ -646,6 +665,11 @@ func (r *runner) play(ep, self *h2kit.Endpoint, dir string, frames []Frame, serv
 			var n int
 			n, err = ep.WriteHeaders(h2kit.HeadersSpec{Stream: f.S, Fields: f.Fields, EndStream: f.End, Prio: f.Prio, Pad: f.Pad, Cuts: f.Cuts})
 			r.noteBlock(dir, f.S, n)
+			if !server && r.c.CWin.Mode == "early" && !opened[f.S] {
+				// credit for the answer before anything of it exists
+				opened[f.S] = true
+				ep.WriteWindowUpdate(f.S, 1<<20)
+			}
 		case "PP":
 			var n int
 			n, err = ep.WritePushPromise(f.S, f.Promised, f.Fields, f.Pad, f.Cuts)
@@ -710,6 +734,9 @@ func (r *runner) receive(ep *h2kit.Endpoint, dir string, w Win, want *model, ack
 		}
 	}
 	for _, s := range ids {
+		if w.Mode == "early" && s%2 == 1 {
+			continue // granted when the stream was opened, never again
+		}
 		ep.WriteWindowUpdate(s, 1<<20)
 	}
 	ep.WriteWindowUpdate(0, 1<<24)
@@ -876,8 +903,8 @@ func runOnce(c Case, bound time.Duration, vr variant) (v kit.Verdict, slow bool)
 	sv.With(func(rec *h2kit.Rec) { gotAtServer, acksAtServer = observed(rec), rec.Acks })
 	cl.With(func(rec *h2kit.Rec) { gotAtClient, acksAtClient = observed(rec), rec.Acks })
 	v = r.v
-	v = append(v, compare("c2s", wantAtServer, gotAtServer, countSettings(server), acksAtServer, blockedShape(c.Client, c.SWin))...)
-	v = append(v, compare("s2c", wantAtClient, gotAtClient, countSettings(c.Client), acksAtClient, blockedShape(server, c.CWin))...)
+	v = append(v, compare("c2s", wantAtServer, gotAtServer, countSettings(server), acksAtServer, blockedShape(c.Client, c.SWin), false)...)
+	v = append(v, compare("s2c", wantAtClient, gotAtClient, countSettings(c.Client), acksAtClient, blockedShape(server, c.CWin), c.CWin.Mode == "early")...)
 	return v, r.slow
 }
 
@@ -910,26 +937,35 @@ func has(v kit.Verdict, sig string) bool {
 
 // attempt runs a variant; a bounded wait that expired is re-validated once,
 // alone, with three times the bound.
+var patience h2kit.Patience
+
 func attempt(c Case, vr variant) kit.Verdict {
-	v, slow := runOnce(c, kit.T(), vr)
+	bound, revalidate := patience.Bound()
+	v, slow := runOnce(c, bound, vr)
 	for _, f := range v {
 		// "a relay direction ended" is judged from the number of relay loops in the
 		// process; a loop left over from an earlier case that ends just now would
 		// look the same. Anything of that kind that is not a known finding is
 		// repeated once against a fresh count.
 		if strings.HasSuffix(f.Sig, "-aborted") && !kit.Known(f.Sig) {
-			v, slow = runOnce(c, kit.T(), vr)
+			v, slow = runOnce(c, bound, vr)
 			break
 		}
 	}
-	if slow {
-		v2, slow2 := runOnce(c, 3*kit.T(), vr)
-		if !slow2 {
-			kit.Inconclusive("frame-scripts")
-		}
-		return v2
+	if !slow {
+		return v
 	}
-	return v
+	if !revalidate {
+		patience.Spent(bound)
+		return v
+	}
+	v2, slow2 := runOnce(c, 3*bound, vr)
+	if !slow2 {
+		kit.Inconclusive("frame-scripts")
+	} else if len(v2) > 0 {
+		patience.Confirm()
+	}
+	return v2
 }
 
 func run(c Case) kit.Verdict {
